@@ -99,12 +99,19 @@ let () =
   Mlutil.iter_lines (fun line ->
     let (kind, ins, outs) = Mlutil.split_case line in
     match kind, ins with
-    | "hist", [_store; _naming; basef; opsf] ->
+    | "hist", [storef; _naming; basef; opsf] ->
         mfa_miss := false;
         let mfa_field = try List.find (fun f -> String.length f >= 2 && String.sub f 0 2 = "M=") outs with Not_found -> "M=" in
         let mfa = mk_mfa (parse_mfa mfa_field) in
-        let cfg = { c_cap = O; c_max = N0 } in
-        let base = List.filter (fun s -> s <> []) (split_on slash (str_of_field basef)) in
+        let cfg =
+          let parts = sp '.' storef in
+          let is_mem = (List.hd parts = "mem") in
+          List.fold_left (fun c o ->
+            let v = int_of_string (String.sub o 1 (String.length o - 1)) in
+            if o.[0] = 'c' then { c with c_cap = nat_of_int v }
+            else if o.[0] = 'm' && is_mem then { c with c_max = n_of_int (v * 1024) }
+            else c) { c_cap = O; c_max = N0 } (List.tl parts) in
+        let base = base_of_config (str_of_field basef) in
         let cbase = join_slash base in
         let ops = if opsf = "-" then [] else List.map (parse_op base) (sp ',' opsf) in
         (* model: what the code is predicted to answer *)
